@@ -21,6 +21,7 @@ ASSUMPTIONS = [
     "exact oracles: knapsack 2^n (n<=16) or integer DP; bins exact B&B n<=12 positive items, or OPT known by "
     "construction (perfect packings); above the guards certificate_only",
 ]
+QUICK_SCALE = 2  # quick-tier multiplier (idle 16-core timing: ~10 s at scale 1)
 STRATA = [
     ("knap-int", 700, 14000),
     ("knap-dec", 500, 10000),
